@@ -405,11 +405,15 @@ func main() {
 			}
 			if !same(ys[i], gs[i]) {
 				in := c
-				if shrunk < 2 && os.Getenv("VERIF_NOSHRINK") == "" {
+				if shrunk < 2 && os.Getenv("VERIF_NOSHRINK") == "" && c.Feat["switch-tag-case-list-call"] == 0 {
 					shrunk++
 					in = progCase{Src: shrink(c.Src)}
 				}
 				d := common.Disagreement{Kind: "impl-vs-ref", Input: in, Impl: ys[i].String(), Ref: gs[i].String()}
+				if c.Feat["switch-tag-case-list-call"] > 0 {
+					// divergence class of F54 (decidable on the input): a tagged switch clause lists several expressions with calls
+					d.Finding = "tagged-switch-case-list-call"
+				}
 				run.Disagree(d)
 			}
 		}
